@@ -93,8 +93,10 @@ pub fn gen(rng: &mut Rng) -> Scn {
                     Outcome::Ok
                 } else if r < 97 {
                     Outcome::Never
-                } else {
+                } else if r < 99 {
                     Outcome::Panic
+                } else {
+                    Outcome::PanicInCall
                 }
             } else if r < 70 {
                 Outcome::Ok
